@@ -284,7 +284,7 @@ class C17(Check):
         'not around points excluded by inmask / sticky outmask; neighbours of points with undecided residual are undecided',
         'lower/upper are used with a supplied sigma or invvar; the default sigma (neither given: population standard deviation of '
         'the residual over the points good in inmask and in the outmask passed in) is exercised for 1-D unsigned data only; lower, '
-        'upper >= 0, maxdev > 0; maxrej/groupsize/groupdim/groupbadpix unused',
+        'upper >= 0 including exactly 0 (everything on that side of the model is rejected; a residual of exactly 0 is undecided), maxdev > 0 (maxdev = 0 divides by zero in the unchanged code and marks zero-residual points through NaN); maxrej/groupsize/groupdim/groupbadpix unused',
         'djs_reject data/model: float64, or BOTH unsigned (uint8/16/32/64 counts, some below the model, values < 2^53; F-J1) with '
         'lower/upper only - maxdev with integer data raises in `badness +=` on the unchanged tree and is left out; floating or '
         'signed sigma (an unsigned sigma array with a Python-int limit raises OverflowError); with integer data inmask is bool or uint8 (a signed-integer inmask raises UFuncTypeError in `badness *= inmask`); floating y for maskinterp (n-D '
@@ -325,6 +325,10 @@ class C17(Check):
         'pres_swapped_reject_data', 'pres_swapped_reject_model', 'pres_swapped_reject_sigma', 'pres_swapped_reject_invvar',
         'pres_swapped_reject_inmask', 'pres_swapped_interp_y', 'pres_swapped_interp_mask', 'pres_swapped_interp_x',
         'pres_swapped_aesthetics_flux', 'pres_swapped_aesthetics_invvar', 'pres_swapped_median_a',
+        'reject_zero_lower_only_calls', 'reject_zero_upper_only_calls', 'reject_zero_both_calls',
+        'reject_zero_with_nonzero_other_side_calls', 'reject_all_passed_limits_zero_calls', 'reject_zero_limit_with_nonzero_limit_calls',
+        'reject_zero_limit_as_int_py', 'reject_zero_limit_as_float_py', 'reject_zero_limit_as_int_npint', 'reject_zero_limit_as_float_npfloat',
+        'reject_zero_limit_as_int_arr0', 'reject_zero_limit_as_float_arr0',
         'reject_unsigned_data_model_calls', 'reject_unsigned_points_below_model', 'reject_default_sigma_calls',
         'reject_unsigned_dtype_uint8', 'reject_unsigned_dtype_uint16', 'reject_unsigned_dtype_uint32', 'reject_unsigned_dtype_uint64',
         'median_swapped_float_1d_filter_calls', 'median_swapped_float_2d_filter_calls',
@@ -434,6 +438,15 @@ class C17(Check):
                 upper = rng.choice([rng.uniform(0.3, 4.0), float(rng.randint(1, 4)), rng.randint(1, 4)])
         if mode == 'none' or rng.random() < 0.35:
             maxdev = rng.uniform(0.8, 5.0) * scale
+        # limits of exactly zero ("reject everything on that side of the model"), alone and combined with None / ordinary
+        # other limits; 0 as int or float here, as numpy scalar / 0-d array through the scalar kinds.  maxdev = 0 is left out
+        # (division by zero in the unchanged code: points with zero residual get NaN badness).
+        if mode != 'none' and rng.random() < 0.12:
+            z = lambda: rng.choice([0, 0.0])
+            nz = lambda: rng.choice([rng.uniform(0.3, 4.0), rng.randint(1, 4)])
+            lower, upper = rng.choice([(z(), None), (None, z()), (z(), z()), (z(), nz()), (nz(), z())])
+            if rng.random() < 0.7:
+                maxdev = None
         case = {'kind': 'reject', 'shape': shape, 'lower': lower, 'upper': upper, 'maxdev': maxdev,
                 'sticky': rng.random() < 0.5, 'grow': 0, 'sigma': None, 'invvar': None}
         if cls == 'reject_grow':
@@ -859,6 +872,20 @@ class C17(Check):
                 if k in kwk:
                     kwk[k] = as_kind(kw[k], kd.get(k, 'py'))
                     out.count('kind_%s_%s' % (k, kd.get(k, 'py')))
+            zl = case['lower'] is not None and case['lower'] == 0
+            zu = case['upper'] is not None and case['upper'] == 0
+            if zl or zu:
+                passed = [v for v in (case['lower'], case['upper'], case['maxdev']) if v is not None]
+                out.count('reject_zero_lower_only_calls' if zl and case['upper'] is None else
+                          'reject_zero_upper_only_calls' if zu and case['lower'] is None else
+                          'reject_zero_both_calls' if zl and zu else 'reject_zero_with_nonzero_other_side_calls')
+                if all(v == 0 for v in passed):
+                    out.count('reject_all_passed_limits_zero_calls')
+                else:
+                    out.count('reject_zero_limit_with_nonzero_limit_calls')
+                for k in ('lower', 'upper'):
+                    if case[k] is not None and case[k] == 0:
+                        out.count('reject_zero_limit_as_%s_%s' % (type(case[k]).__name__, kd.get(k, 'py')))
             out.count('kind_grow_' + kd.get('grow', 'py'))
             out.count('kind_sticky_' + kd.get('sticky', 'py'))
             mask, qdone = self.M.djs_reject(data, model, outmask=prev_in, inmask=inmask, grow=as_kind(grow, kd.get('grow', 'py')),
